@@ -12,12 +12,21 @@
     ANY order ([Permutation]).  Every finite set of independent elementary
     edits is such a script, so the theorems quantify over all of them.
 
-    Partial (named so): MySQL / PostgreSQL callbacks are not modelled (they are
-    tied by the oracle-only stages); the index script requires that a dropped
-    index does not carry a database-generated name (the similarUnnamedIndex
-    path); RealmDiff, views, triggers are outside the model. *)
+    Partial (named so): the MySQL / PostgreSQL instances (DiffDialects.v) cover the
+    attributes of the edit catalogue only; the index script requires that a dropped
+    index with a database-generated name has no similar unnamed index on the other
+    side (the positive similarUnnamedIndex match is tied, not characterised);
+    RealmDiff, views, triggers are outside the model.
+
+    FULL STATEMENT aimed at (C02_exact): for every well-formed s and every independent
+    finite set es of elementary edits, diff s (apply es s) = expected es up to order
+    within a table.  Proved below piecewise: per keyed list (2a-2e), composed per table
+    (2f, 3a) and per schema (2g), with the ChangeKind bits of ColumnChange per dialect
+    (3b, 4c, 4f).  What is missing for one closed C02_exact: the composition of 2g
+    with 3a over all tables at once, and the scripts whose dropped generated-name index
+    is matched with an unnamed one. *)
 From Coq Require Import List NArith Bool Arith Permutation.
-From Atlas Require Import Base.Bytes Diff.Schema Diff.DiffModel Diff.DiffSqlite Diff.DiffProofs Diff.DiffSqliteProofs.
+From Atlas Require Import Base.Bytes Diff.Schema Diff.DiffModel Diff.DiffSqlite Diff.DiffDialects Diff.DiffProofs Diff.DiffSqliteProofs Diff.DiffDialectsProofs.
 Import ListNotations.
 
 (** 1a. Generic: for every driver whose callbacks report nothing on identical
@@ -55,10 +64,17 @@ Proof. exact (fun D skip dwf RL SL => schema_diff_perm D skip dwf RL SL). Qed.
 Theorem C02_sqlite_laws : refl_laws sqlite_driver /\ sim_laws sqlite_driver sqlite_dwf.
 Proof. exact (conj sqlite_refl_laws sqlite_sim_laws). Qed.
 
-(** 1e. "diff s s = []" at full strength (only the generic well-formedness) is
-    FALSE for the SQLite differ: an inspected autoindex of a UNIQUE constraint
-    (origin "u") is dropped and re-added under its normalized name ... *)
-Theorem C02_self_empty_refuted :
+(** 1e. "the diff with a deep copy is empty" at full strength (only the generic
+    well-formedness) is FALSE for the SQLite differ.  The model has no pointers, so
+    [SchemaDiff D skip s s] is the diff of [s] with a field-wise equal copy.
+    Witness 1: the inspected autoindex of a UNIQUE constraint (origin "u") is dropped
+    and re-added under its normalized name.  Reproduced on the Go code (harness class
+    "witness", known finding C02-sqlite-autoindex-copy-not-empty) and through the CLI:
+    [atlas schema diff --from sqlite://y.db --to sqlite://y.db] on a database created
+    with [CREATE TABLE t (c int UNIQUE)] plans DROP INDEX / CREATE UNIQUE INDEX.
+    (With the very same Go graph on both sides the diff IS empty, because Normalize
+    renames the shared index object on "both" sides at once.) *)
+Theorem C02_copy_empty_refuted :
   exists s, NoDup (map t_name (s_tables s)) /\ (forall t, In t (s_tables s) -> wf_table t) /\
             SchemaDiff sqlite_driver no_skip s s <> Some [].
 Proof.
@@ -67,8 +83,10 @@ Proof.
   - rewrite w_schema1_diff. discriminate.
 Qed.
 
-(** ... and two foreign keys of the same shape with different symbols yield an AddForeignKey. *)
-Theorem C02_self_empty_refuted_fk :
+(** Witness 2: two foreign keys of the same shape with different symbols yield an
+    AddForeignKey (the inner loop of Normalize has no break).  Reproduced on the Go code
+    and through the CLI (known finding C02-sqlite-same-shape-fks-copy-not-empty). *)
+Theorem C02_copy_empty_refuted_fk :
   exists s, NoDup (map t_name (s_tables s)) /\ (forall t, In t (s_tables s) -> wf_table t) /\
             (forall t, In t (s_tables s) -> idx_norm_stable (t_idx t)) /\
             SchemaDiff sqlite_driver no_skip s s <> Some [].
@@ -80,7 +98,7 @@ Proof.
 Qed.
 
 (** 1f. What does hold for SQLite (self, copy and every permutation). *)
-Theorem C02_self_empty_except :
+Theorem C02_copy_empty_except :
   forall (skip : tag -> bool) s s', wf_schema sqlite_dwf s -> schema_perm s s' ->
   sqlite_schema_diff skip s s' = Some [].
 Proof. exact (fun skip => schema_diff_perm sqlite_driver skip sqlite_dwf sqlite_refl_laws sqlite_sim_laws). Qed.
@@ -105,7 +123,7 @@ Theorem C02_exact_indexes_partial :
   forall (D : DiffDriver) (skip : tag -> bool) from to ps adds,
   t_idx from = map fst ps -> script_ok i_name ps adds ->
   Permutation (t_idx to) (kept ps ++ adds) ->
-  (forall c, In (c, None) ps -> dd_is_generated_index_name D from c = false) ->
+  (forall c, In (c, None) ps -> dd_is_generated_index_name D from c = false \/ similar_unnamed_index D to c = None) ->
   exists adds', Permutation adds adds' /\
     index_diff_t D skip from to =
     add_or_skip skip (idx_expected D ps ++ map (fun i => AddIndex (i_name i)) adds').
@@ -172,7 +190,7 @@ Theorem C02_exact_table_partial :
   (forall c c', In (c, Some c') cps -> dd_column_change D from1 c c' <> None) ->
   t_idx from = map fst ips -> script_ok i_name ips iadds ->
   Permutation (t_idx to) (kept ips ++ iadds) ->
-  (forall c, In (c, None) ips -> dd_is_generated_index_name D from1 c = false) ->
+  (forall c, In (c, None) ips -> dd_is_generated_index_name D from1 c = false \/ similar_unnamed_index D to c = None) ->
   t_fks from = map fst fps -> script_ok f_symbol fps fadds ->
   Permutation (t_fks to) (kept fps ++ fadds) ->
   exists cadds' iadds' fadds',
@@ -209,7 +227,7 @@ Theorem C02_exact_sqlite_table_partial :
   (forall c c', In (c, Some c') cps -> c_class c <> 0%N /\ c_class c' <> 0%N) ->
   t_idx from = map fst ips -> script_ok i_name ips iadds ->
   Permutation (t_idx to) (kept ips ++ iadds) ->
-  (forall c, In (c, None) ips -> sqlite_is_generated_index_name from1 c = false) ->
+  (forall c, In (c, None) ips -> sqlite_is_generated_index_name from1 c = false \/ similar_unnamed_index sqlite_driver to c = None) ->
   t_fks from = map fst fps -> script_ok f_symbol fps fadds ->
   Permutation (t_fks to) (kept fps ++ fadds) ->
   t_checks from = map fst kps -> Permutation (t_checks to) (kept kps ++ kadds) ->
@@ -259,13 +277,184 @@ Proof.
   - intros k T d g. exact (sqlite_edit_all t c k T d g H).
 Qed.
 
+(** 4a. The laws hold for the MySQL instance, with [mysql_dwf]: columns typed with a
+    class typeChanged supports, named checks unique ... *)
+Theorem C02_mysql_laws : refl_laws mysql_driver /\ sim_laws mysql_driver mysql_dwf.
+Proof. exact (conj mysql_refl_laws mysql_sim_laws). Qed.
+
+(** ... hence self, copy and every reordering give the empty diff for MySQL. *)
+Theorem C02_mysql_perm_empty :
+  forall (skip : tag -> bool) s s', wf_schema mysql_dwf s -> schema_perm s s' ->
+  mysql_schema_diff skip s s' = Some [].
+Proof. exact (fun skip => schema_diff_perm mysql_driver skip mysql_dwf mysql_refl_laws mysql_sim_laws). Qed.
+
+(** 4b. The same for the PostgreSQL instance. *)
+Theorem C02_postgres_laws : refl_laws pg_driver /\ sim_laws pg_driver pg_dwf.
+Proof. exact (conj pg_refl_laws pg_sim_laws). Qed.
+
+Theorem C02_postgres_perm_empty :
+  forall (skip : tag -> bool) s s', wf_schema pg_dwf s -> schema_perm s s' ->
+  pg_schema_diff skip s s' = Some [].
+Proof. exact (fun skip => schema_diff_perm pg_driver skip pg_dwf pg_refl_laws pg_sim_laws). Qed.
+
+(** 4c. MySQL ColumnChange: exactly the union of the seven attribute bits, each decided by
+    its own comparison (comment, NULL, type class / identity, default, generated, charset,
+    collation). *)
+Theorem C02_mysql_column_bits :
+  forall t c c', c_class c <> 0%N -> c_class c' <> 0%N -> mysql_supported_class (c_class c) = true ->
+  mysql_column_change t c c' =
+  Some (N.lor (N.lor (N.lor (N.lor (N.lor (N.lor
+          (comment_change (c_comment c) (c_comment c'))
+          (bit (negb (Bool.eqb (c_null c) (c_null c'))) ChangeNull))
+          (bit (negb (N.eqb (c_class c) (c_class c')) || negb (str_eqb (fld 0 (c_T c)) (fld 0 (c_T c')))) ChangeType))
+          (bit (mysql_default_changed c c') ChangeDefault))
+          (bit (mysql_generated_changed c c') ChangeGenerated))
+          (bit (mysql_cs_changed 1 c c') ChangeCharset))
+          (bit (mysql_cs_changed 2 c c') ChangeCollate)).
+Proof. exact mysql_column_bits. Qed.
+
+(** 4d. "an edited default is reported" is FALSE for MySQL bool columns: default 1 -> (1 = 2)
+    yields no change (reproduced on the Go code: known finding
+    C02-mysql-bool-default-unknown-value-unreported) ... *)
+Theorem C02_mysql_bool_default_refuted :
+  exists c c', c_class c = MY_BOOL /\ c_class c' = MY_BOOL /\ c_default c <> c_default c' /\
+               forall t, mysql_column_change t c c' = Some 0%N.
+Proof.
+  exists w_bool_col, w_bool_col'. split; [reflexivity|]. split; [reflexivity|]. split; [discriminate|].
+  exact w_bool_unreported.
+Qed.
+
+(** ... what holds: two known truth values are compared as truth values. *)
+Theorem C02_mysql_bool_default_except :
+  forall c c' d1 d2 a b,
+  c_class c = MY_BOOL -> default_value c = Some d1 -> default_value c' = Some d2 ->
+  bool_value d1 = Some a -> bool_value d2 = Some b ->
+  mysql_default_changed c c' = negb (Bool.eqb a b).
+Proof. exact mysql_bool_default_known. Qed.
+
+(** 4e. "an edited column type is reported" is FALSE for PostgreSQL user-defined types:
+    citext -> ltree yields no change (known finding C02-postgres-udt-type-change-unreported) ... *)
+Theorem C02_postgres_udt_type_refuted :
+  exists c c', c_class c = PG_UDT /\ c_class c' = PG_UDT /\ fld 0 (c_T c) <> fld 0 (c_T c') /\
+               forall t, pg_column_change t c c' = Some 0%N.
+Proof.
+  exists (w_udt_col [99;105;116;101;120;116]%N), (w_udt_col [108;116;114;101;101]%N).
+  split; [reflexivity|]. split; [reflexivity|]. split; [discriminate|]. exact w_udt_unreported.
+Qed.
+
+(** 4f. ... what holds: in every other known class except arrays the type bit is set exactly
+    when the class or the type identity differs, and ColumnChange is the union of its six bits. *)
+Theorem C02_postgres_column_bits_except :
+  forall t c c' gc,
+  c_class c <> 0%N -> c_class c' <> 0%N -> pg_known_class (c_class c) = true ->
+  c_class c <> PG_UDT -> c_class c <> PG_ARRAY -> pg_generated_changed c c' = Some gc ->
+  pg_column_change t c c' =
+  Some (N.lor (N.lor (N.lor (N.lor (N.lor
+          (comment_change (c_comment c) (c_comment c'))
+          (bit (negb (Bool.eqb (c_null c) (c_null c'))) ChangeNull))
+          (bit (negb (N.eqb (c_class c) (c_class c')) || negb (str_eqb (fld 0 (c_T c)) (fld 0 (c_T c')))) ChangeType))
+          (bit (pg_default_changed c c') ChangeDefault))
+          (bit (pg_identity_changed c c') ChangeAttr))
+          (bit gc ChangeGenerated)).
+Proof.
+  intros t c c' gc H H' K U A G.
+  exact (pg_column_bits t c c' _ gc (pg_type_changed_exact c c' H H' K U A) G).
+Qed.
+
+(** 4g. When is the side condition of 2b met: a driver without FindGeneratedIndex (MySQL,
+    PostgreSQL) finds no similar index in a table whose indexes are all named. *)
+Theorem C02_no_similar_index :
+  forall (D : DiffDriver) to idx1,
+  dd_find_generated_index D = None -> (forall i, In i (t_idx to) -> i_name i <> []) ->
+  similar_unnamed_index D to idx1 = None.
+Proof. exact similar_unnamed_none. Qed.
+
+(** * Non-vacuity: concrete inputs (vm_compute) *)
+Definition x_a : column := mkColumn [97]%N 2 [105;110;116]%N false None None None.
+Definition x_b : column := mkColumn [98]%N 3 [116;101;120;116]%N true (Some (DLit [39;120;39]%N)) None None.
+Definition x_i1 : index := mkIndex [105;49]%N false [mkPart 0 false (Some [97]%N) None] None None None.
+Definition x_f1 : fkey := mkFk [102;49]%N [[97]%N] [116]%N [[97]%N] [] [67;65;83;67;65;68;69]%N.
+Definition x_k1 : check := mkCheck [107;49]%N [97;62;48]%N.
+Definition x_t : table := mkTable [116]%N false false [x_a; x_b] None [x_i1] [x_f1] [x_k1].
+Definition x_s : schema := mkSchema [109]%N [x_t].
+(* the same table, lists reordered *)
+Definition x_t_perm : table := mkTable [116]%N false false [x_b; x_a] None [x_i1] [x_f1] [x_k1].
+(* an edited copy: b NOT NULL with default 'y', column c added, a dropped from nothing; index made unique; fk action changed; check dropped *)
+Definition x_b' : column := mkColumn [98]%N 3 [116;101;120;116]%N false (Some (DLit [39;121;39]%N)) None None.
+Definition x_c : column := mkColumn [99]%N 4 [114;101;97;108]%N true None None None.
+Definition x_i1' : index := mkIndex [105;49]%N true [mkPart 0 false (Some [97]%N) None] None None None.
+Definition x_f1' : fkey := mkFk [102;49]%N [[97]%N] [116]%N [[97]%N] [] [].
+Definition x_t' : table := mkTable [116]%N false true [x_c; x_a; x_b'] None [x_i1'] [x_f1'] [].
+
+Example C02_ex_wf : wf_schema sqlite_dwf x_s.
+Proof.
+  split; [repeat constructor; simpl; tauto|]. intros t [<-|[]]. split.
+  - constructor; simpl.
+    + repeat constructor; simpl; intuition discriminate.
+    + repeat constructor; simpl; tauto.
+    + intros i [<-|[]]. constructor; [left; discriminate|constructor].
+    + discriminate.
+    + repeat constructor; simpl; tauto.
+  - repeat split; simpl.
+    + intros c [<-|[<-|[]]]; discriminate.
+    + intros c c' [<-|[]] [<-|[]] _ _. reflexivity.
+    + intros f1 f2 [<-|[]] [<-|[]] _. reflexivity.
+    + intros i [<-|[]]. left. reflexivity.
+Qed.
+Example C02_ex_self : SchemaDiff sqlite_driver no_skip x_s x_s = Some [].
+Proof. vm_compute. reflexivity. Qed.
+Example C02_ex_perm : SchemaDiff sqlite_driver no_skip x_s (mkSchema [109]%N [x_t_perm]) = Some [].
+Proof. vm_compute. reflexivity. Qed.
+Example C02_ex_perm_mysql : mysql_schema_diff no_skip x_s (mkSchema [109]%N [x_t_perm]) = Some [].
+Proof. vm_compute. reflexivity. Qed.
+Example C02_ex_perm_pg : pg_schema_diff no_skip x_s (mkSchema [109]%N [x_t_perm]) = Some [].
+Proof. vm_compute. reflexivity. Qed.
+(* one change per edit, with the flags: STRICT added, check dropped, b NULL|DEFAULT, c added, index UNIQUE, fk ON DELETE *)
+Example C02_ex_exact :
+  SchemaDiff sqlite_driver no_skip x_s (mkSchema [109]%N [x_t']) =
+  Some [ModifyTable [116]%N [AddAttr ATTR_STRICT; DropCheck [107;49]%N [97;62;48]%N;
+                            ModifyColumn [98]%N (N.lor ChangeNull ChangeDefault); AddColumn [99]%N;
+                            ModifyIndex [105;49]%N ChangeUnique; ModifyForeignKey [102;49]%N ChangeDeleteAction]].
+Proof. vm_compute. reflexivity. Qed.
+(* the scripts of 2a / 2b / 2c for that pair *)
+Example C02_ex_column_script :
+  script_ok c_name [(x_a, Some x_a); (x_b, Some x_b')] [x_c] /\
+  Permutation (t_cols x_t') (kept [(x_a, Some x_a); (x_b, Some x_b')] ++ [x_c]).
+Proof.
+  split.
+  - unfold script_ok. simpl. split.
+    + repeat constructor; simpl; intuition discriminate.
+    + intros c c' [E|[E|[]]]; inversion E; reflexivity.
+  - simpl. apply (Permutation_cons_app [x_a; x_b'] [] x_c). rewrite app_nil_r. apply Permutation_refl.
+Qed.
+Example C02_ex_skip :
+  SchemaDiff sqlite_driver (fun t => match t with TgAddColumn | TgModifyIndex => true | _ => false end)
+             x_s (mkSchema [109]%N [x_t']) =
+  Some [ModifyTable [116]%N [AddAttr ATTR_STRICT; DropCheck [107;49]%N [97;62;48]%N;
+                            ModifyColumn [98]%N (N.lor ChangeNull ChangeDefault);
+                            ModifyForeignKey [102;49]%N ChangeDeleteAction]].
+Proof. vm_compute. reflexivity. Qed.
+Example C02_ex_pk :
+  pk_diff sqlite_driver no_skip x_t (mkTable [116]%N false false [x_a; x_b] (Some x_i1) [] [] []) = [AddPrimaryKey] /\
+  pk_diff sqlite_driver no_skip (mkTable [116]%N false false [x_a; x_b] (Some x_i1) [] [] [])
+          (mkTable [116]%N false false [x_a; x_b] (Some (mkIndex [] false [mkPart 0 true (Some [97]%N) None] None None None)) [] [] [])
+  = [ModifyPrimaryKey ChangeParts].
+Proof. split; vm_compute; reflexivity. Qed.
+Example C02_ex_mysql_bits :
+  mysql_column_change x_t x_b x_b' = Some (N.lor ChangeNull ChangeDefault) /\
+  pg_column_change x_t x_b x_b' = Some (N.lor ChangeNull ChangeDefault) /\
+  sqlite_column_change x_t x_b x_b' = Some (N.lor ChangeNull ChangeDefault).
+Proof. repeat split; vm_compute; reflexivity. Qed.
+Example C02_ex_no_similar : similar_unnamed_index mysql_driver x_t' x_i1 = None.
+Proof. vm_compute. reflexivity. Qed.
+
 Print Assumptions C02_self_empty.
 Print Assumptions C02_copy_empty.
 Print Assumptions C02_perm_empty.
 Print Assumptions C02_sqlite_laws.
-Print Assumptions C02_self_empty_refuted.
-Print Assumptions C02_self_empty_refuted_fk.
-Print Assumptions C02_self_empty_except.
+Print Assumptions C02_copy_empty_refuted.
+Print Assumptions C02_copy_empty_refuted_fk.
+Print Assumptions C02_copy_empty_except.
 Print Assumptions C02_exact_columns.
 Print Assumptions C02_exact_indexes_partial.
 Print Assumptions C02_exact_fks.
@@ -275,3 +464,13 @@ Print Assumptions C02_exact_table_partial.
 Print Assumptions C02_exact_schema.
 Print Assumptions C02_exact_sqlite_table_partial.
 Print Assumptions C02_sqlite_column_bits.
+Print Assumptions C02_mysql_laws.
+Print Assumptions C02_mysql_perm_empty.
+Print Assumptions C02_postgres_laws.
+Print Assumptions C02_postgres_perm_empty.
+Print Assumptions C02_mysql_column_bits.
+Print Assumptions C02_mysql_bool_default_refuted.
+Print Assumptions C02_mysql_bool_default_except.
+Print Assumptions C02_postgres_udt_type_refuted.
+Print Assumptions C02_postgres_column_bits_except.
+Print Assumptions C02_no_similar_index.
